@@ -53,6 +53,7 @@ Sanity ==
   /\ TfDivFloor(BnOfNat(1000000), BnOfNat(7)) = BnOfNat(142857) /\ TfDivFloor(<<>>, <<5>>) = <<>>
   /\ TfDivFloor(BnMul(BnPow2(63), BnOfNat(3)), BnOfNat(3)) = BnPow2(63)
   /\ Tf60e9 = BnOfDec(<<6,0,0,0,0,0,0,0,0,0,0>>)
+  /\ \A k \in {0, 1, 14, 15, 16, 29, 30, 31, 50, 51, 63} : \A a \in {<<>>, <<1>>, <<32767>>, <<0, 1>>, Tf60e9} : TfShl(a, k) = BnMul(a, BnPow2(k))
   /\ TfBpmDomain(<<1>>, <<1>>) /\ TfBpmDomain(BnOfNat(1000), <<1>>) /\ ~TfBpmDomain(BnOfNat(1001), <<1>>) /\ ~TfBpmDomain(BnOfNat(99), BnOfNat(100))
   /\ TfDyNum(BnOfNat(15), 3) = BnOfNat(120) /\ TfDyDen(3) = <<1>> /\ TfDyDen(-2) = BnOfNat(4) /\ TfDyNum(BnOfNat(481), -2) = BnOfNat(481)
   \* texts
@@ -80,6 +81,7 @@ QSet == IF Thorough THEN 0..65535
         ELSE ResCorners \cup {4, 5, 15, 16, 17, 255, 256, 257, 511, 512, 513, 959, 961, 32766, 32769, 65534} \cup {q \in 0..65535 : q % 61 = 7}
 \* tempi as fractions <<bn, bd>> (integers, hundredths, thousandths)
 Bpms == << <<1, 1>>, <<101, 100>>, <<60, 1>>, <<120, 1>>, <<12050, 100>>, <<120001, 1000>>, <<14285, 100>>, <<333333, 1000>>, <<99999, 100>>, <<1000, 1>> >>
+BpmIdx == IF Thorough THEN 1..Len(Bpms) ELSE {1, 2, 5, 6, 9, 10}
 Big2p28 == BnPow2(28)
 TickSamples == {<<>>, <<1>>, <<2>>, <<3>>, <<7>>, <<95>>, <<96>>, <<97>>, <<959>>, <<960>>, <<961>>, BnOfNat(1000000),
                 BnSub(Big2p28, <<1>>), Big2p28, BnSub(BnPow2(32), <<3>>), BnSub(BnPow2(32), <<2>>)}
@@ -95,8 +97,8 @@ Next == \/ /\ kind = "init"
               \/ kind' = "prekey" /\ x' \in KsSfs /\ y' = 0
         \/ kind = "preword" /\ kind' = "word" /\ y' \in 0..255 /\ x' = x
         \/ kind = "preres" /\ kind' = "res" /\ y' \in {q \in QSet : q \div 256 = x} /\ x' = x
-        \/ kind = "preinv" /\ kind' = "inv" /\ y' \in {<<b, n>> : b \in 1..Len(Bpms), n \in TickSamples} /\ x' = x
-        \/ kind = "preinv2" /\ kind' = "inv2" /\ y' \in {<<b, d>> : b \in 1..Len(Bpms), d \in DurSamples} /\ x' = x
+        \/ kind = "preinv" /\ kind' = "inv" /\ y' \in {<<b, n>> : b \in BpmIdx, n \in TickSamples} /\ x' = x
+        \/ kind = "preinv2" /\ kind' = "inv2" /\ y' \in {<<b, d>> : b \in BpmIdx, d \in DurSamples} /\ x' = x
         \/ kind = "prekey" /\ kind' = "key" /\ y' \in KsModes /\ x' = x
 
 \* ------------------------------------------------------------------ Word
